@@ -173,7 +173,7 @@ def traj_records(env, data, cfg, seed, nsteps, rid0):
         r, d = env.step(a)
         nxt = proj.state_to_json(env.state)
         digest.update(json.dumps([st, ob, a.name, repr(float(r)), bool(d)], sort_keys=True).encode())
-        srecs.append({'id': rid0 + t, 'want': ['C01', 'C12', 'DRIFT'], 'fam': '', 'fi': -1, 'fsize': -1, 'k': -1, 'space': space,
+        srecs.append({'id': rid0 + t, 'want': ['C01', 'C12', 'C17', 'DRIFT'], 'fam': '', 'fi': -1, 'fsize': -1, 'k': -1, 'space': space,
                       'comps': cfg['comps'], 'rew': [cfg['rew']], 'term': [cfg['term']], 'st': st,
                       'acts': [{'a': a.name, 'outcome': 'ok', 'full': False, 'same': False, 'support': [nxt], 'r': [proj.milli(r)],
                                 'rtype': [type(r).__name__], 'rfinite': [True], 'rexact': [proj.is_milli_exact(r)], 'done': [bool(d)],
@@ -349,6 +349,11 @@ def run(ctx, replay=None):
         for t in res.find('BAD'):
             rec = by_id.get(t[1], {})
             clauses = sorted((t[3] if kind == 'step' else t[2])['set'])
+            verdict = [c for c in clauses if not c.startswith('DRIFT')] if kind != 'obs' else clauses
+            if not verdict:
+                ctx.drift(f"{rec.get('file')}: {kind} record differs from the operational model ({clauses})")
+                continue
+            clauses = verdict
             ctx.violation(f"{rec.get('file')}: the built environment does not behave like the described one: {kind} record fails {clauses} on [{sst(rec['st']) if 'st' in rec else ''}]",
                           {'kind': 'traj', 'file': rec.get('file'), 'clauses': clauses, 'record': rec})
     nontrivial = sum(1 for r in srecs if r['acts'][0]['support'][0] != r['st'])
